@@ -636,3 +636,79 @@ package bbolt
 //@   ensures [source] err == nil && tx.WriteFlag == 0 ==> srfile == tx.db.file
 //@   ensures [unchanged] tx.meta.txid == old(tx.meta.txid) && tx.meta.pgid == old(tx.meta.pgid) && tx.meta.checksum == old(tx.meta.checksum)
 //@   skip tx.go:431 because the buffer was just made with pageSize >= 512 bytes; make() of a symbolic size is not tracked by the slice-length model after the callback havoc
+
+// ---------------------------------------------------------------- C04: bucket API (error paths, what is written at the leaf)
+
+//@ func cloneBytes
+//@   trusted
+//@   ensures len(result) == len(v) && bytesval(result) == bytesval(v) && (len(v) > 0 ==> result != nil)
+//@   modifies nothing
+
+//@ func (*Cursor).seek
+//@   opaque
+//@   returns (key, value, flags)
+//@   ensures c.bucket == old(c.bucket)
+//@   modifies c.stack, all("elemRef.page"), all("elemRef.node"), all("elemRef.index"), all("TxStats.CursorCount")
+
+//@ func (*Cursor).node
+//@   opaque
+//@   ensures result != nil
+//@   modifies all("elemRef.node"), all("elemRef.page"), all("node.children"), all("node.inodes"), all("node.key"), all("node.pgid"), all("node.isLeaf"), all("node.parent"), all("node.bucket"), all("node.unbalanced"), all("node.spilled"), allmaps("common.Pgid", "*bbolt.node"), all("Bucket.rootNode"), all("TxStats.NodeCount"), all("Inode.key"), all("Inode.value"), all("Inode.flags"), all("Inode.pgid")
+
+//@ func (*node).put
+//@   opaque
+//@   modifies n.inodes, all("Inode.key"), all("Inode.value"), all("Inode.flags"), all("Inode.pgid")
+
+//@ func (*node).del
+//@   opaque
+//@   modifies n.inodes, n.unbalanced, all("Inode.key"), all("Inode.value"), all("Inode.flags"), all("Inode.pgid")
+
+//@ func (*Bucket).node
+//@   opaque
+//@   ensures result != nil && b.rootNode != nil && b.InBucket == old(b.InBucket) && b.tx == old(b.tx)
+//@   ensures b.InBucket.sequence == old(b.InBucket.sequence) && b.InBucket.root == old(b.InBucket.root)
+
+//@ func (*Bucket).Put
+//@   returns (err)
+//@   props C04 C15
+//@   requires b != nil && b.tx != nil
+//@   ensures [closed] old(b.tx.db) == nil ==> err == berrors.ErrTxClosed
+//@   ensures [readonly] old(b.tx.db) != nil && !old(b.tx.writable) ==> err == berrors.ErrTxNotWritable
+//@   ensures [keyrequired] old(b.tx.db) != nil && old(b.tx.writable) && len(key) == 0 ==> err == berrors.ErrKeyRequired
+//@   ensures [keytoolarge] old(b.tx.db) != nil && old(b.tx.writable) && len(key) > 32768 ==> err == berrors.ErrKeyTooLarge
+//@   ensures [valuetoolarge] old(b.tx.db) != nil && old(b.tx.writable) && len(key) >= 1 && len(key) <= 32768 && len(value) > 2147483646 ==> err == berrors.ErrValueTooLarge
+//@   ensures [noerrwrite] err != nil ==> callstotal("(*node).put") == old(callstotal("(*node).put")) && callstotal("(*node).del") == old(callstotal("(*node).del"))
+//@   ensures [written] err == nil ==> callstotal("(*node).put") == old(callstotal("(*node).put")) + 1 && lastarg("(*node).put", 1) == old(bytesval(key)) && lastarg("(*node).put", 2) == old(bytesval(key)) && lastarg("(*node).put", 3) == old(bytesval(value)) && lastarg("(*node).put", 4) == 0 && lastarg("(*node).put", 5) == 0
+//@   ensures [accepts] old(b.tx.db) != nil && old(b.tx.writable) && len(key) >= 1 && len(key) <= 32768 && len(value) <= 2147483646 ==> err == nil || err == berrors.ErrIncompatibleValue
+
+//@ func (*Bucket).Delete
+//@   returns (err)
+//@   props C04
+//@   requires b != nil && b.tx != nil
+//@   ensures [closed] old(b.tx.db) == nil ==> err == berrors.ErrTxClosed
+//@   ensures [readonly] old(b.tx.db) != nil && !old(b.tx.writable) ==> err == berrors.ErrTxNotWritable
+//@   ensures [noerrwrite] err != nil ==> callstotal("(*node).del") == old(callstotal("(*node).del")) && callstotal("(*node).put") == old(callstotal("(*node).put"))
+//@   ensures [deleted] callstotal("(*node).del") != old(callstotal("(*node).del")) ==> callstotal("(*node).del") == old(callstotal("(*node).del")) + 1 && lastarg("(*node).del", 1) == old(bytesval(key)) && err == nil
+//@   ensures [okorincompat] old(b.tx.db) != nil && old(b.tx.writable) ==> err == nil || err == berrors.ErrIncompatibleValue
+
+//@ func (*Bucket).SetSequence
+//@   props C04 C15
+//@   requires b != nil && b.tx != nil && b.InBucket != nil
+//@   ensures [closed] old(b.tx.db) == nil ==> result == berrors.ErrTxClosed
+//@   ensures [readonly] old(b.tx.db) != nil && !old(b.tx.writable) ==> result == berrors.ErrTxNotWritable
+//@   ensures [set] old(b.tx.db) != nil && old(b.tx.writable) ==> result == nil && b.InBucket.sequence == v && b.rootNode != nil
+//@   ensures [unchanged] result != nil ==> b.InBucket.sequence == old(b.InBucket.sequence)
+
+//@ func (*Bucket).NextSequence
+//@   returns (seq, err)
+//@   props C04
+//@   requires b != nil && b.tx != nil && b.InBucket != nil
+//@   ensures [closed] old(b.tx.db) == nil ==> err == berrors.ErrTxClosed && seq == 0
+//@   ensures [readonly] old(b.tx.db) != nil && !old(b.tx.writable) ==> err == berrors.ErrTxNotWritable && seq == 0
+//@   ensures [next] old(b.tx.db) != nil && old(b.tx.writable) ==> err == nil && seq == wrapu64(old(b.InBucket.sequence) + 1) && b.InBucket.sequence == seq && b.rootNode != nil
+//@   ensures [unchanged] err != nil ==> b.InBucket.sequence == old(b.InBucket.sequence)
+
+//@ func (*Bucket).Get
+//@   props C04
+//@   requires b != nil && b.tx != nil
+//@   ensures [notbucketvalue] callstotal("(*node).put") == old(callstotal("(*node).put")) && callstotal("(*node).del") == old(callstotal("(*node).del"))
